@@ -2,5 +2,10 @@ from ._expr_common import run_expr_prop
 
 
 def run(tier, seed, verdict):
-    cov, assume = run_expr_prop("C12", tier, seed, verdict, variants=("asan20d",))
+    # single-fault enumeration only for programs that allocate through the receiver's allocator: every block taken from
+    # it must go back to it on the exception paths too (counting allocator, rule M3)
+    cov, assume = run_expr_prop("C12", tier, seed, verdict, variants=("asan20d",), faults=True,
+                                fault_ops=("allocate", "any_sender"),
+                                extra_rule="programs containing allocate()/any_sender_of additionally run with each throwable "
+                                "point of their first 12 scenarios made to throw (allocator balance rule only).")
     return cov, assume, "exploration"
